@@ -28,6 +28,7 @@
 #include <fcntl.h>
 #include <limits.h>
 #include <stddef.h>
+#include <stdio.h>
 #include <stdlib.h>
 #include <string.h>
 #include <sys/mman.h>
@@ -51,6 +52,7 @@
 static cJSON *user_data = NULL;
 static const cJSON *users = NULL;
 static int password_file = -1;
+static char *password_file_name = NULL;
 
 struct crypt_method {
 	const char *prefix;        /* salt prefix */
@@ -141,9 +143,9 @@ int load_passwd_data(const char *passwd_file)
 	}
 
 	munmap(p, size);
-	free(rp);
 
 	password_file = fd;
+	password_file_name = rp;
 	return 0;
 
 add_call_groups_failed:
@@ -174,6 +176,12 @@ void free_passwd_data(void)
 
 	if (password_file != -1) {
 		close(password_file);
+		password_file = -1;
+	}
+
+	if (password_file_name != NULL) {
+		free(password_file_name);
+		password_file_name = NULL;
 	}
 }
 
@@ -269,33 +277,88 @@ static bool is_admin(const char *current_user)
 	return false;
 }
 
+static int write_all(int fd, const char *data, size_t length)
+{
+	size_t written = 0;
+	while (written < length) {
+		cjet_ssize_t ret = write(fd, data + written, length - written);
+		if (ret < 0) {
+			return -1;
+		}
+		written += (size_t)ret;
+	}
+	return 0;
+}
+
+/*
+ * The new content goes into a temporary file next to the password file, which then
+ * atomically replaces it. A crash, a short write or a write error at any point leaves
+ * either the old or the new password file behind, never a truncated one.
+ */
 static int write_user_data()
 {
-	if (ftruncate(password_file, 0) < 0) {
-		log_err("Could not truncate password file\n");
+	static const char suffix[] = ".tmp";
+	int ret = -1;
+
+	if (password_file_name == NULL) {
+		log_err("No password file to write to\n");
 		return -1;
 	}
 
-	lseek(password_file, 0, SEEK_SET);
 	char *data = cJSON_Print(user_data);
 	if (data == NULL) {
 		log_err("Could not serialize user data!");
 		return -1;
 	}
 
-	cjet_ssize_t written = 0;
-	cjet_ssize_t to_write = strlen(data);
-	while (written < to_write) {
-		written = write(password_file, data, to_write);
-		if (written < 0) {
-			log_err("Could not write password file\n");
-			return -1;
-		}
-		to_write -= written;
+	size_t name_length = strlen(password_file_name);
+	char *tmp_name = cjet_malloc(name_length + sizeof(suffix));
+	if (tmp_name == NULL) {
+		log_err("Could not allocate memory for temporary file name\n");
+		goto alloc_name_failed;
+	}
+	memcpy(tmp_name, password_file_name, name_length);
+	memcpy(tmp_name + name_length, suffix, sizeof(suffix));
+
+	mode_t mode = S_IRUSR | S_IWUSR;
+	struct stat st;
+	if (fstat(password_file, &st) == 0) {
+		mode = st.st_mode & (S_IRWXU | S_IRWXG | S_IRWXO);
 	}
 
+	int fd = open(tmp_name, O_WRONLY | O_CREAT | O_TRUNC, mode);
+	if (fd < 0) {
+		log_err("Could not create temporary password file\n");
+		goto open_failed;
+	}
+
+	if ((write_all(fd, data, strlen(data)) < 0) || (fsync(fd) < 0)) {
+		log_err("Could not write password file\n");
+		close(fd);
+		unlink(tmp_name);
+		goto write_failed;
+	}
+
+	if (close(fd) < 0) {
+		log_err("Could not close temporary password file\n");
+		unlink(tmp_name);
+		goto write_failed;
+	}
+
+	if (rename(tmp_name, password_file_name) < 0) {
+		log_err("Could not replace password file\n");
+		unlink(tmp_name);
+		goto write_failed;
+	}
+
+	ret = 0;
+
+write_failed:
+open_failed:
+	cjet_free(tmp_name);
+alloc_name_failed:
 	cjet_free(data);
-	return 0;
+	return ret;
 }
 
 static void fill_salt(char *buf, unsigned int salt_len)
